@@ -13,6 +13,7 @@ import (
 	"context"
 	"encoding/json"
 	"fmt"
+	"google.golang.org/grpc"
 	"net"
 	"os"
 	"path/filepath"
@@ -20,6 +21,7 @@ import (
 	"sort"
 	"strconv"
 	"strings"
+	"sync/atomic"
 	"time"
 
 	"github.com/fxamacker/cbor/v2"
@@ -48,7 +50,12 @@ type inst struct {
 	priv []byte
 	port int
 	up   bool
+	isB  bool
 }
+
+// until this time (unix nanoseconds) B's push-log handler does not answer: a hung process or a black-holed link, as
+// opposed to a closed port
+var hangUntil atomic.Int64
 
 type world struct {
 	ctx    context.Context
@@ -63,6 +70,8 @@ type world struct {
 	mode   string // rep: replicator A->B ; sub: B subscribes to the collection (pubsub), no replicator
 	// the DAG sync's link timeout before "slow" (0: not slow)
 	slowOld time.Duration
+	// A's push timeout before "hang" (0: unchanged)
+	pushOld time.Duration
 }
 
 func freePort() int {
@@ -84,12 +93,24 @@ func (w *world) opts(i *inst) []node.Option {
 		netConfig.WithPrivateKey(i.priv),
 		// the retry loop's own ticker never fires a retry in a run: rounds are triggered through the hook
 		netConfig.WithRetryInterval([]time.Duration{time.Hour}),
+		netConfig.NodeOpt(func(o *netConfig.Options) {
+			if !i.isB {
+				return
+			}
+			o.GRPCServerOptions = append(o.GRPCServerOptions, grpc.UnaryInterceptor(
+				func(ctx context.Context, req any, info *grpc.UnaryServerInfo, handler grpc.UnaryHandler) (any, error) {
+					for time.Now().UnixNano() < hangUntil.Load() {
+						time.Sleep(20 * time.Millisecond)
+					}
+					return handler(ctx, req)
+				}))
+		}),
 		db.WithEnabledSigning(false),
 	}
 }
 
 func (w *world) newInst(name string) *inst {
-	i := &inst{dir: filepath.Join(w.base, fmt.Sprintf("c%d-%s", w.caseID, name)), port: freePort()}
+	i := &inst{dir: filepath.Join(w.base, fmt.Sprintf("c%d-%s", w.caseID, name)), port: freePort(), isB: name == "b"}
 	must(os.MkdirAll(i.dir, 0o755))
 	k, err := crypto.GenerateEd25519()
 	must(err)
@@ -107,6 +128,11 @@ func (w *world) open(i *inst) {
 }
 
 func (w *world) close() {
+	hangUntil.Store(0)
+	if w.pushOld != 0 {
+		defranet.PushTimeout = w.pushOld
+		w.pushOld = 0
+	}
 	if w.slowOld != 0 {
 		defranet.VerifSetSyncLinkTimeout(w.slowOld)
 		w.slowOld = 0
@@ -245,7 +271,11 @@ func (w *world) awaitStable() string {
 		if cur != last {
 			last, since = cur, time.Now()
 		}
-		if time.Since(since) > 400*time.Millisecond || time.Now().After(deadline) {
+		need := 400 * time.Millisecond
+		if time.Now().UnixNano() < hangUntil.Load() {
+			need += defranet.PushTimeout // a push that gets no answer is given up after this long
+		}
+		if time.Since(since) > need || time.Now().After(deadline) {
 			return w.book()
 		}
 		time.Sleep(40 * time.Millisecond)
@@ -368,6 +398,17 @@ func runCase(ctx context.Context, out *vc.Out, base string, lines []string) {
 				w.slowOld = defranet.VerifSetSyncLinkTimeout(time.Nanosecond)
 			}
 			res = "ok"
+		case "hang": // B does not answer pushes (it neither refuses nor fails): A gives up after its push timeout
+			if w.pushOld == 0 {
+				w.pushOld = defranet.PushTimeout
+				defranet.PushTimeout = time.Second
+			}
+			hangUntil.Store(time.Now().Add(time.Hour).UnixNano())
+			res = "ok"
+		case "unhang":
+			hangUntil.Store(0)
+			time.Sleep(100 * time.Millisecond) // the held handlers answer now
+			res = "ok"
 		case "fast":
 			if w.slowOld != 0 {
 				defranet.VerifSetSyncLinkTimeout(w.slowOld)
@@ -411,7 +452,7 @@ func genCase(r *vc.Rng, id uint64) []string {
 	lines := []string{fmt.Sprintf("case %d %s", id, mode), "start"}
 	ndoc := 0
 	var docs []string
-	up, slow := true, false
+	up, slow, hung := true, false, false
 	patches := []string{"email", "nick"}
 	np := 0
 	hasField := func(f string) bool { return false }
@@ -432,11 +473,17 @@ func genCase(r *vc.Rng, id uint64) []string {
 			}
 		case x < 9 && mode == "rep":
 			switch {
+			case up && r.Chance(1, 4):
+				lines = append(lines, "hang")
+				hung = true
 			case up && r.Chance(1, 3):
 				lines = append(lines, "slow")
 				slow = true
 			case up:
 				lines = append(lines, "down")
+			case hung:
+				lines = append(lines, "unhang")
+				hung = false
 			case slow:
 				lines = append(lines, "fast")
 				slow = false
@@ -444,7 +491,7 @@ func genCase(r *vc.Rng, id uint64) []string {
 				lines = append(lines, "up")
 			}
 			up = !up
-		case x == 9 && (up || slow) && np < len(patches):
+		case x == 9 && (up || slow || hung) && np < len(patches):
 			lines = append(lines, "patch "+patches[np])
 			np++
 		case x >= 10 && mode == "rep":
@@ -452,7 +499,9 @@ func genCase(r *vc.Rng, id uint64) []string {
 		}
 	}
 	if !up {
-		if slow {
+		if hung {
+			lines = append(lines, "unhang")
+		} else if slow {
 			lines = append(lines, "fast")
 		} else {
 			lines = append(lines, "up")
@@ -507,9 +556,12 @@ func main() {
 			"retry", "retry", "settle"})
 		cases = append(cases, []string{"case 5 rep", "start", "slow", "patch email", `create d1 {"name": "v1", "n": 7}`, `create d2 {"name": "v2", "n": 4}`, "fast", "patch nick",
 			`update d1 {"email": "e8"}`, "retry", "retry", "settle"})
+		// directed: B does not answer one push (no refusal, no error), then answers again
+		cases = append(cases, []string{"case 6 rep", "start", `create d1 {"name": "v1", "n": 1}`, "hang", `update d1 {"n": 2}`, `create d2 {"name": "v2", "n": 2}`, "unhang",
+			"retry", "retry", `create d3 {"name": "v3", "n": 3}`, "settle"})
 		for i := 0; i < n; i++ {
 			cr, _ := r.Fork()
-			cases = append(cases, genCase(cr, uint64(i+6)))
+			cases = append(cases, genCase(cr, uint64(i+7)))
 		}
 	}
 	for _, c := range cases {
